@@ -69,7 +69,44 @@ static void setup_target(zcase *c, ztarget *t) {
         t->chk[i] = zck->index.last;
         t->chk[i]->valid = c->flag0[i] == 2 ? -1 : c->flag0[i];
     }
+    /* data checksum of the complete, correct file (used by the validity scan when every chunk is good) */
+    if(!set_full_hash_type(zck, c->ht)) { printf("BADCASE fullhash\n"); exit(2); }
+    {
+        size_t tot = 0;
+        for(int i = 0; i < c->nch; i++) tot += c->len[i];
+        unsigned char *all = malloc(tot + 1), dg[64];
+        size_t o = 0;
+        for(int i = 0; i < c->nch; i++) { memcpy(all + o, c->data[i], c->len[i]); o += c->len[i]; }
+        md(c->ht, all, tot, dg);
+        zck->full_hash_digest = malloc(64);
+        memcpy(zck->full_hash_digest, dg, 64);
+        free(all);
+    }
     t->zck = zck;
+}
+
+static int vstring(zcase *c, ztarget *t, char *v, size_t cap) {
+    struct stat st; fstat(fd, &st);
+    size_t L = st.st_size;
+    unsigned char *f = malloc(L + 1);
+    if(pread(fd, f, L, 0) != (ssize_t)L) { perror("pread"); exit(2); }
+    int vp = 0;
+    v[0] = 0;
+    for(int i = 0; i < c->nch; i++) {
+        size_t o = c->doff + c->start[i], n = c->len[i];
+        size_t have = o >= L ? 0 : (L - o < n ? L - o : n);
+        size_t ihave = o >= c->ninit ? 0 : (c->ninit - o < n ? c->ninit - o : n);
+        char cl;
+        int allz = have == n; for(size_t j = 0; j < have && allz; j++) if(f[o + j]) allz = 0;
+        if(n == 0) cl = 'E';
+        else if(have == n && memcmp(f + o, c->data[i], n) == 0) cl = 'T';
+        else if(allz) cl = 'Z';
+        else if(have == ihave && memcmp(f + o, c->init + o, have) == 0) cl = 'I';
+        else cl = 'O';
+        vp += snprintf(v + vp, cap - vp, "%s%d%c", i ? "," : "", t->chk[i]->valid, cl);
+    }
+    free(f);
+    return vp;
 }
 
 /* feed header lines and the body cut at the given positions; returns 1 when every callback took its bytes */
@@ -183,16 +220,31 @@ static void run_session(zcase *c, char *spec, zres *r) {
     zckDL *dl = zck_dl_init(t.zck);
     r->nret = 0; r->verdict = 1;
     char *tr[64]; int ntr = 0;
+    static char snaps[4096]; int sp = 0;
+    snaps[0] = 0;
     tr[ntr++] = spec;
     for(char *p = spec; *p; p++) if(*p == '/') { *p = 0; if(ntr < 64) tr[ntr++] = p + 1; }
     for(int k = 0; k < ntr; k++) {
         char *f1 = tr[k], *f2 = strchr(f1, ':'), *f3 = f2 ? strchr(f2 + 1, ':') : NULL;
         if(!f2 || !f3) { printf("BADCASE transfer\n"); exit(2); }
         *f2++ = 0; *f3++ = 0;
+        char *f4 = strchr(f3, ':');
+        if(f4) *f4++ = 0;
         if(k && r->nret < (int)sizeof(r->rets) - 1) r->rets[r->nret++] = '/';
+        if(f4 && strcmp(f4, "r") == 0) {
+            /* the client re-checks its file, as src/zck_dl.c does before downloading */
+            int rv = zck_find_valid_chunks(t.zck);
+            (void)rv;
+            zck_reset_failed_chunks(t.zck);
+        }
         zck_dl_reset(dl);
         zckRange *range = zck_get_missing_range(t.zck, -1);
-        if(range == NULL || !zck_dl_set_range(dl, range)) { printf("BADCASE range\n"); exit(2); }
+        if(range == NULL) {
+            /* the context is in error state: a client cannot build another request; the session ends here */
+            if(r->nret < (int)sizeof(r->rets) - 1) r->rets[r->nret++] = 'E';
+            break;
+        }
+        if(!zck_dl_set_range(dl, range)) { printf("BADCASE range\n"); exit(2); }
         char *hp[64]; unsigned char *hdr[64]; size_t hdrlen[64];
         int nh = split(f1, ',', hp, 64);
         for(int i = 0; i < nh; i++) hdr[i] = zh_unhex(hp[i], &hdrlen[i]);
@@ -213,8 +265,14 @@ static void run_session(zcase *c, char *spec, zres *r) {
         free(body); free(cuts);
         zck_dl_set_range(dl, NULL);
         zck_range_free(&range);
+        sp += snprintf(snaps + sp, sizeof(snaps) - sp, "%s", k ? ";" : "");
+        sp += vstring(c, &t, snaps + sp, sizeof(snaps) - sp);
     }
     finish_result(c, &t, r, 0);
+    {
+        size_t ll = strlen(r->line);
+        snprintf(r->line + ll, sizeof(r->line) - ll, " I=%s", snaps);
+    }
     zck_dl_free(&dl);
     t.zck->fd = -1;
     zck_free(&t.zck);
